@@ -536,6 +536,10 @@ func C03(p *engine.Prog, r *engine.Report) {
 	c03R3(p, r, vb)
 	c03R6(p, r, vb)
 	c03R7(p, r)
+	// R8: proposer eligibility is judged on a validator view that follows every reset of the trees
+	importRules(p, r, "C08", map[string]string{"C08-R4": "C03-R8"})
+	c03R9(p, r)
+	processTxsExhaustiveRule(p, r, "C03-R9")
 }
 
 func c03R2(p *engine.Prog, r *engine.Report, ctx *c03ctx) {
@@ -951,4 +955,42 @@ func c03R7(p *engine.Prog, r *engine.Report) {
 	}
 	r.Check(ok && n > 0, "C03-R7", "Header.Hash|the empty part is hashed only when no proposed part is present", p.Pos(f.Pos()), "behind ProposedHeader == nil", "a header carrying both parts hashes to its empty part: combined with IsEmpty() (empty part first) a forged proposed part rides along an honest empty header through validateBlock's hash comparison and is persisted")
 	r.Floor("C03-R7", 1, "Header.Hash")
+}
+
+// c03R9: no verdict of a cryptographic or structural check inside ValidateHeader is dropped: every call that
+// returns an error has that error tested, and success is reported only behind its nil edge.
+func c03R9(p *engine.Prog, r *engine.Report) {
+	vh := mustFunc(p, r, "blockchain", "Blockchain.ValidateHeader")
+	if vh == nil {
+		return
+	}
+	n := 0
+	for _, c := range engine.Calls(vh) {
+		cc, ok := c.(*ssa.Call)
+		if !ok || len(errResultsOf(cc)) == 0 {
+			continue
+		}
+		if o := engine.CalleeObj(&cc.Call); o != nil && o.Pkg() != nil {
+			switch o.Pkg().Path() {
+			case "errors", "fmt", "github.com/pkg/errors":
+				continue // builds the error that is returned
+			}
+		}
+		// constructors of parsed inputs whose failure is subsumed by a later comparison are still required to be tested
+		n++
+		g := nilErrGuards(vh, cc)
+		okc := len(g) > 0
+		for _, ret := range successReturns(vh) {
+			// only returns this call can reach
+			if !reachesInstr(cc, ret) {
+				continue
+			}
+			if !engine.OnlyThroughPassRet(vh, ret, g) {
+				okc = false
+			}
+		}
+		r.Check(okc, "C03-R9", uniq(r, "ValidateHeader|error of "+calleeShort(cc)+" decides"), p.InstrPos(cc), "tested; success only behind nil", "the error of "+calleeShort(cc)+" is dropped or does not stop validation: a header for which this check fails can still be accepted (e.g. a non-verifying seed proof whose zero output equals a zero seed)")
+	}
+	r.Floor("C03-R9", 3, "error-returning checks in ValidateHeader")
+	_ = n
 }
